@@ -364,6 +364,45 @@ impl Property for C07 {
         out
     }
 
+    fn crosscheck(sc: &Sc, ctx: &mut Ctx, bins: &std::path::Path) -> crate::crosscheck::Xc {
+        use crate::crosscheck::Xc;
+        if !sc.nul {
+            return Xc::NotComparable;
+        }
+        // in-process find gives the stream; the real pipeline must deliver exactly its records
+        let root = ctx.scratch.join("A");
+        let _ = std::env::set_current_dir(&ctx.scratch);
+        crate::sys::wipe(&root);
+        if std::fs::create_dir_all(&root).is_err() || tree::build(&root, &sc.find.tree).is_err() {
+            return Xc::Disagree("cannot build tree".into());
+        }
+        let fobs = run_find_prebuilt(&sc.find, ctx, root);
+        let mut want: Vec<Vec<u8>> = fobs.log.sink.split(|b| *b == 0).map(|r| r.to_vec()).collect();
+        want.pop(); // after the final NUL
+        let mut xopts = vec!["-0".to_string()];
+        if let Some(n) = sc.xargs_n {
+            xopts.push("-n".into());
+            xopts.push(n.to_string());
+        }
+        match crate::crosscheck::pipeline_real(&sc.find, &xopts, &sc.outcomes, ctx, bins) {
+            Err(e) => Xc::Disagree(e),
+            Ok((got, fstatus, _)) => {
+                if fstatus != fobs.status {
+                    Xc::Disagree(format!("find {:?}: status {:?} in-process, {:?} by the executable", sc.find.argv, fobs.status, fstatus))
+                } else if got != want {
+                    let at = got.iter().zip(&want).position(|(a, b)| a != b).unwrap_or(got.len().min(want.len()));
+                    Xc::Disagree(format!(
+                        "find {:?} | xargs {:?}: {} paths printed in-process, {} arguments received through the real pipe; first difference at #{at}: [{}] vs [{}]",
+                        sc.find.argv, xopts, want.len(), got.len(),
+                        want.get(at).map(|a| crate::sys::show(a)).unwrap_or_default(), got.get(at).map(|a| crate::sys::show(a)).unwrap_or_default()
+                    ))
+                } else {
+                    Xc::Agree
+                }
+            }
+        }
+    }
+
     fn rule() -> &'static str {
         "one evaluation = one seeded scenario: a real tree whose names are arbitrary valid UTF-8 without '/' and NUL (blanks only, leading '-', newlines, quotes, backslashes, {}, $(), glob characters, multi-byte, up to 250 bytes), a starting point spelled t / ./t / t/, find_main ... -print0 (or -print) writing through a sink that accepts short counts and raises EINTR, then the accepted byte stream fed to xargs_main -0 CMD through a reader that re-cuts it independently (1-byte, odd sizes, whole buffers, EINTR every k-th read), optional -n and failing children; oracle: the stream equals the concatenation over an independent reference walk, and the arguments received over all invocations equal the record list exactly once, in order; distinct = distinct abstract trace; non-trivial = a write/read fault fired or a hostile-name probe hit"
     }
